@@ -1,6 +1,7 @@
 package main
 
 import (
+	"context"
 	"errors"
 	"fmt"
 	"net"
@@ -10,6 +11,8 @@ import (
 	"time"
 
 	"github.com/enfein/mieru/v3/pkg/appctl/appctlpb"
+	"github.com/enfein/mieru/v3/pkg/cipher"
+	"github.com/enfein/mieru/v3/pkg/common"
 	"github.com/enfein/mieru/v3/pkg/protocol"
 	"github.com/enfein/mieru/v3/pkg/stderror"
 	"verifharness/refcodec"
@@ -23,7 +26,8 @@ const markPrefix = "app-"
 // ---------------------------------------------------------------- application scripts
 
 type op struct {
-	kind byte // 'w' write n bytes, 'r' read n bytes, 's' sleep d
+	kind byte // 'w' write n bytes, 'r' read n bytes, 's' sleep d, 'z' wait until this side's endpoint advertised window 0 then sleep d,
+	// 'a' arm the slow client socket, 'c' wait until the client socket stalls inside WriteTo, sleep d, then Close the client (and the session)
 	n    int
 	d    time.Duration
 }
@@ -40,6 +44,7 @@ type sessRun struct {
 	mu       sync.Mutex
 	errs     []string
 	closing  atomic.Bool
+	armCh    chan struct{} // close-race: the writer reached its arming point
 	closeCh  chan struct{} // closed when closing is set
 	done     chan struct{} // all threads finished
 	finished atomic.Bool   // all threads finished without error
@@ -101,7 +106,7 @@ func split(r *vh.Rng, total, parts int) []int {
 }
 
 func plan(idx int, spec SessSpec) *sessRun {
-	s := &sessRun{idx: idx, spec: spec, srvCh: make(chan net.Conn, 1), done: make(chan struct{}), closeCh: make(chan struct{})}
+	s := &sessRun{idx: idx, spec: spec, srvCh: make(chan net.Conn, 1), done: make(chan struct{}), closeCh: make(chan struct{}), armCh: make(chan struct{}, 1)}
 	r := vh.NewRng(spec.Seed)
 	s.data[0] = r.Bytes(spec.CBytes)
 	s.data[1] = r.Bytes(spec.SBytes)
@@ -139,10 +144,108 @@ func plan(idx int, spec SessSpec) *sessRun {
 	case "slow-down":
 		s.threads[0] = [][]op{append(writes(r, spec.CBytes, spec.FirstWrite, spec.MaxWrite), op{kind: 'r', n: 1}, op{kind: 's', d: ms(spec.PauseMs)}, op{kind: 'r', n: spec.SBytes - 1})}
 		s.threads[1] = [][]op{append([]op{{kind: 'r', n: spec.CBytes}}, writes(r, spec.SBytes, 0, spec.MaxWrite)...)}
+	case "exact-up", "exact-down":
+		snd, total := 0, spec.CBytes
+		if spec.Shape == "exact-down" {
+			snd, total = 1, spec.SBytes
+		}
+		var w []op
+		if snd == 1 {
+			w = append(w, op{kind: 'r', n: spec.CBytes})
+		}
+		for i := 0; i < spec.Msgs; i++ {
+			n := spec.MsgSize
+			if n > total {
+				n = total
+			}
+			total -= n
+			w = append(w, op{kind: 'w', n: n})
+			if i == spec.Unpaced {
+				w = append(w, op{kind: 's', d: 2 * time.Second})
+			}
+			if i > spec.Unpaced {
+				w = append(w, op{kind: 's', d: ms(spec.PaceMs)})
+			}
+		}
+		var rd []op
+		if snd == 0 {
+			w = append(w, op{kind: 'r', n: spec.SBytes})
+			rd = append([]op{{kind: 'z', d: 300 * time.Millisecond}, {kind: 'r', n: spec.CBytes}}, writes(r, spec.SBytes, 0, 16)...)
+		} else {
+			rd = append(writes(r, spec.CBytes, 0, 16), op{kind: 'z', d: 300 * time.Millisecond}, op{kind: 'r', n: spec.SBytes})
+		}
+		s.threads[snd] = [][]op{w}
+		s.threads[1-snd] = [][]op{rd}
+	case "close-race":
+		// client: small first write, reads the reply (session established), then single-fragment messages back to back;
+		// a second client thread closes the session while a Write is in progress and the socket stalls
+		c := []op{{kind: 'w', n: spec.FirstWrite}, {kind: 'r', n: spec.SBytes}}
+		for i := 0; i < spec.Msgs; i++ {
+			if i == spec.ArmAfter {
+				c = append(c, op{kind: 'a'})
+			}
+			c = append(c, op{kind: 'w', n: spec.MsgSize})
+		}
+		s.threads[0] = [][]op{c, {{kind: 'c', d: time.Millisecond}}}
+		s.threads[1] = [][]op{append(append([]op{{kind: 'r', n: spec.FirstWrite}}, writes(r, spec.SBytes, 0, 16)...), op{kind: 'r', n: spec.CBytes - spec.FirstWrite})}
 	default:
 		panic("shape " + spec.Shape)
 	}
 	return s
+}
+
+// ---------------------------------------------------------------- slow client socket
+
+// slowCtl makes WriteTo of the client's socket sleep (like a full socket buffer) for data-sized datagrams once armed.
+// The session's output loop calls WriteTo while it holds the output lock, so the lock is held for the whole stall.
+type slowCtl struct {
+	armed   atomic.Bool
+	stall   time.Duration
+	stalled chan struct{}
+	n       atomic.Int64
+	mu      sync.Mutex
+	dec     *decoder
+	protos  map[uint8]bool // segment types whose WriteTo stalls
+}
+
+func (c *slowCtl) hit(b []byte) bool {
+	if !c.armed.Load() {
+		return false
+	}
+	c.mu.Lock()
+	seg := c.dec.decode(time.Now(), b)
+	c.mu.Unlock()
+	return seg != nil && c.protos[seg.Meta.Proto]
+}
+
+type slowConn struct {
+	net.PacketConn
+	ctl *slowCtl
+}
+
+func (c slowConn) WriteTo(b []byte, addr net.Addr) (int, error) {
+	if c.ctl.hit(b) {
+		c.ctl.n.Add(1)
+		select {
+		case c.ctl.stalled <- struct{}{}:
+		default:
+		}
+		time.Sleep(c.ctl.stall)
+	}
+	return c.PacketConn.WriteTo(b, addr)
+}
+
+type slowDialer struct {
+	inner simnet.PacketDialer
+	ctl   *slowCtl
+}
+
+func (d slowDialer) ListenPacket(ctx context.Context, network, laddr, raddr string) (net.PacketConn, error) {
+	pc, err := d.inner.ListenPacket(ctx, network, laddr, raddr)
+	if err != nil {
+		return nil, err
+	}
+	return slowConn{pc, d.ctl}, nil
 }
 
 // ---------------------------------------------------------------- one schedule
@@ -159,6 +262,7 @@ type schedResult struct {
 	wallMs   int64
 	fst      fateStats
 	rigHung  bool
+	stalls   int64 // WriteTo calls of the client socket that were stalled
 }
 
 func lePattern(mode, rot int) *appctlpb.TrafficPattern {
@@ -182,7 +286,28 @@ func runSchedule(sc *Schedule) *schedResult {
 	nw.Latency = ms(sc.LatencyMs)
 	opts := rig.Opts{Transport: "udp", MTU: sc.MTU, Multiplex: sc.Multiplex, Net: nw,
 		ClientPattern: lePattern(sc.LEMode, sc.LERot), ServerPattern: lePattern(sc.LEMode, sc.LERot)}
-	rg, err := rig.Start(opts)
+	var rg *rig.Rig
+	var err error
+	ctl := &slowCtl{stall: ms(sc.StallMs), stalled: make(chan struct{}, 1), dec: newDecoder(), protos: map[uint8]bool{6: true}}
+	if len(sc.Sessions) > 0 && sc.Sessions[0].Variant == 2 {
+		ctl.protos = map[uint8]bool{5: true}
+	}
+	if sc.SlowSock {
+		// same as rig.Start, but the client's socket is wrapped (rig.NewClient hard-wires simnet's dialer)
+		rg, err = rig.StartServer(opts)
+		if err == nil {
+			o := rg.Opts
+			cp := protocol.NewUnderlayProperties(o.MTU, common.PacketTransport, nil, &net.UDPAddr{IP: net.ParseIP(o.ServerIP), Port: o.ServerPort})
+			rg.Client = protocol.NewMux(true).
+				SetClientUserNamePassword(o.ClientUser, cipher.HashPassword([]byte(o.ClientPass), []byte(o.ClientUser))).
+				SetClientMultiplexFactor(o.Multiplex).
+				SetPacketDialer(slowDialer{simnet.PacketDialer{N: nw}, ctl}).
+				SetResolver(nil).
+				SetEndpoints([]protocol.UnderlayProperties{cp})
+		}
+	} else {
+		rg, err = rig.Start(opts)
+	}
 	if err != nil {
 		res.startErr = err.Error()
 		return res
@@ -238,6 +363,55 @@ func runSchedule(sc *Schedule) *schedResult {
 			switch o.kind {
 			case 's':
 				time.Sleep(o.d)
+			case 'z':
+				for !ft.sawZero(s.sid, side) {
+					if s.closing.Load() {
+						return
+					}
+					time.Sleep(20 * time.Millisecond)
+				}
+				time.Sleep(o.d)
+			case 'a':
+				ctl.armed.Store(true)
+				select {
+				case s.armCh <- struct{}{}:
+				default:
+				}
+			case 'c':
+				if s.spec.Variant == 2 {
+					// the server application closes first; the client keeps writing; the client application calls Close while the
+					// client's input loop is stalled inside WriteTo of the close session response
+					select {
+					case <-s.armCh:
+					case <-s.closeCh:
+						return
+					}
+					regMu.Lock()
+					v := s.srv
+					regMu.Unlock()
+					if v == nil {
+						return
+					}
+					mark("X", 1, s, nil)
+					go v.Close()
+					select {
+					case <-ctl.stalled:
+						time.Sleep(1500 * time.Microsecond)
+					case <-time.After(2 * time.Second):
+					case <-s.closeCh:
+						return
+					}
+					closeSessionFrom(s, 0, nil, &regMu)
+					return
+				}
+				select {
+				case <-ctl.stalled:
+				case <-s.closeCh:
+					return
+				}
+				time.Sleep(o.d)
+				closeSessionFrom(s, 0, mark, &regMu)
+				return
 			case 'w':
 				b := s.data[side][*woff : *woff+o.n]
 				*woff += o.n
@@ -391,12 +565,17 @@ func runSchedule(sc *Schedule) *schedResult {
 	res.segs = ft.segs
 	res.fst = ft.st
 	ft.mu.Unlock()
+	res.stalls = ctl.n.Load()
 	res.wallMs = wallNow() - w0
 	return res
 }
 
 // closeSession logs the X marker (the cut of the case) and closes both ends; idempotent.
 func closeSession(s *sessRun, mark func(string, int, *sessRun, []byte), regMu *sync.Mutex) {
+	closeSessionFrom(s, int(s.spec.Seed>>7)&1, mark, regMu)
+}
+
+func closeSessionFrom(s *sessRun, first int, mark func(string, int, *sessRun, []byte), regMu *sync.Mutex) {
 	if s.closing.Swap(true) {
 		return
 	}
@@ -404,8 +583,9 @@ func closeSession(s *sessRun, mark func(string, int, *sessRun, []byte), regMu *s
 	regMu.Lock()
 	c, v := s.cli, s.srv
 	regMu.Unlock()
-	first := int(s.spec.Seed>>7) & 1
-	mark("X", first, s, nil)
+	if mark != nil {
+		mark("X", first, s, nil)
+	}
 	conns := []net.Conn{c, v}
 	if first == 1 {
 		conns = []net.Conn{v, c}
